@@ -510,7 +510,7 @@ func resolveAltField(t *gen.TD, path []int) (fd *gen.FD, gp string, structOnly, 
 
 var subHistory = runlog.Register(&runlog.Sub[Case]{
 	Name: "option-history",
-	Rule: "a struct type as in prefilled-unpack whose fields carry two tag sets - names, ignore/inline flags and policy flags under `config` and, independently drawn, under `alt` (same name, new name, the name another field has under `config`, no name, a name with a separator in it; the catalogue structs have hand-written `alt` tags with swapped names and other flags) and validator tags under `validate` and `altv` - and a history of 1 to 3 Unpack calls in one process, each with its own options: StructTag (none, the default named explicitly, `alt`, a tag name no field has), ValidatorTag (likewise), PathSep (none, `.`, `/`; 1 in 8 names contains a separator and is written below intermediate objects when the call splits it, as one key otherwise), a global policy, its own configuration written for the names the call reads (plus settings under names only the other tag sets or the other spelling read, which no field may take) and in 30% its own injected fault. A later call unpacks over the result of the previous one or into a newly pre-filled target, and in 1 of 4 cases unpacks the previous configuration again (2 of 3 times the same *Config object, else a new one made from the same data; same names, any validator tag and policy). In 1 of 4 generated types two fields anywhere in the nest of struct values are pre-filled from the SAME slice (whole, or two windows of one backing array), map or pointer, in 1 of 8 cases two places below slices share one flat slice; in 1 of 8 cases Unpack receives a pointer to the pointer. Every call is checked like a case of prefilled-unpack against the state the target had before that call, under the view its options select: success must equal the expectation, an error must leave the struct as it was, a call without fault and without a validator tag under the tag name it reads must succeed. A field that shares a pointer, map or non-flat slice with another field never gets a setting and must keep its identity and direct contents (what it shares may change); targets of earlier calls must not change when a later call unpacks into another target. Non-trivial: some call of the history is non-trivial in the sense of prefilled-unpack. Distinct: hash of the whole case.",
+	Rule: "a struct type as in prefilled-unpack (incl. its Go field names: non-ASCII upper-case first letters, long names, tags equal to the name, exported/unexported names that differ only in case - under a tag name no field has such an exported field is read under the lower-cased name, and no setting is written for the unexported one) whose fields carry two tag sets - names, ignore/inline flags and policy flags under `config` and, independently drawn, under `alt` (same name, new name, the name another field has under `config`, no name, a name with a separator in it; the catalogue structs have hand-written `alt` tags with swapped names and other flags) and validator tags under `validate` and `altv` - and a history of 1 to 3 Unpack calls in one process, each with its own options: StructTag (none, the default named explicitly, `alt`, a tag name no field has), ValidatorTag (likewise), PathSep (none, `.`, `/`; 1 in 8 names contains a separator and is written below intermediate objects when the call splits it, as one key otherwise), a global policy, its own configuration written for the names the call reads (plus settings under names only the other tag sets or the other spelling read, which no field may take) and in 30% its own injected fault. A later call unpacks over the result of the previous one or into a newly pre-filled target, and in 1 of 4 cases unpacks the previous configuration again (2 of 3 times the same *Config object, else a new one made from the same data; same names, any validator tag and policy). In 1 of 4 generated types two fields anywhere in the nest of struct values are pre-filled from the SAME slice (whole, or two windows of one backing array), map or pointer, in 1 of 8 cases two places below slices share one flat slice; in 1 of 8 cases Unpack receives a pointer to the pointer. Every call is checked like a case of prefilled-unpack against the state the target had before that call, under the view its options select: success must equal the expectation, an error must leave the struct as it was, a call without fault and without a validator tag under the tag name it reads must succeed. A field that shares a pointer, map or non-flat slice with another field never gets a setting and must keep its identity and direct contents (what it shares may change); targets of earlier calls must not change when a later call unpacks into another target. Non-trivial: some call of the history is non-trivial in the sense of prefilled-unpack. Distinct: hash of the whole case.",
 	Gen:  genHistory,
 	Run:  runCase,
 })
